@@ -43,11 +43,11 @@ theorem expression_same_values (P Q : Policy) (gs : Grids) (lo ln : Nat → Exce
     dataOf (eval P gs lo e) = dataOf (eval Q gs ln e) :=
   eval_same_values P Q gs lo ln hl e hs
 
-/-- The side condition on `shaped` cannot be dropped: `Field([c], g).sum().shaped` is a `(1,)`
+/-- The side condition on `shaped` cannot be dropped: `Field([c], g).max().shaped` is a `(1,)`
 Field under the subclass route (a full reduction stays a 0-d Field) and an `AttributeError` under
 the wrapper route (the reduction returned a scalar). -/
 theorem shaped_needs_agreeing_tags :
-    let p := [Stmt.assign 0 (.shaped (.red .sum .all (.field ⟨[1], .real, [⟨3, 0⟩]⟩ 0)))]
+    let p := [Stmt.assign 0 (.shaped (.red .max .all (.field ⟨[1], .real, [⟨3, 0⟩]⟩ 0)))]
     (runO [(0, some [1])] {} p).1.map obsData = [.ok (0, ⟨[1], .real, [⟨3, 0⟩]⟩)] ∧
     (runN [(0, some [1])] {} p).1.map obsData = [.error .attr] := by
   intro p
@@ -109,12 +109,45 @@ theorem copy_pickle_roundtrip (P : Policy) (gs : Grids) (look : Nat → Except E
 theorem setstate_getstate (fresh a : Arr) : Prim.setstate fresh (Prim.getstate a) = a := rfl
 
 
-/-- **In-place updates write through (subclass route)**: after a successful `x op= e`, `x` *and
-every alias of `x`* read the updated array (still the same kind of object on the same grid), and
-every variable naming another object is unchanged. -/
-theorem inplace_writes_through_old (gs : Grids) (so so' : OState) (x : Nat) (op : BinOp) (e : Expr) (c : Nat)
-    (hx : so.vars.lookup x = some c) (hstep : stepO gs so (.iop x op e) = .ok so') :
-    ∃ xv ev a, so.cells[c]? = some xv ∧ evalO gs so e = .ok ev ∧ Prim.inplace op xv.1 ev.1 = .ok a ∧
+/-- **Grid rule for every further modelled operation** (reductions with keepdims, cumsum/cumprod,
+sort/argsort, argmax/argmin, astype, clip, 1-d matmul, field_dot, field_trace): whenever the first
+operand is a Field on grid `g` and the result is not 0-d, both routes return a Field on `g`.
+The only class excluded is `func` (`np.where`), see `where_grid_rule`. -/
+theorem fnTag_keeps_grid (c : TagClass) (hc : c ≠ .func) (ts : List Tag) (a : Arr) (g : Nat)
+    (hnd : a.shape ≠ []) :
+    fnTag oldPolicy c (.field g :: ts) a = .field g ∧ fnTag newPolicy c (.field g :: ts) a = .field g := by
+  cases c <;> simp_all [fnTag, oldPolicy, newPolicy, leftGrid]
+
+/-- `np.where(c, a, b)` is the one modelled operation on which the routes attach *different* kinds
+of object: NumPy does not preserve the subclass (bare ndarray under the subclass route), while the
+wrapper's `__array_function__` wraps the result on the grid of the leftmost Field argument.
+The values are the same (`backends_same_values`). -/
+theorem where_grid_rule (ts : List Tag) (a : Arr) (g : Nat) (h : leftGrid ts = some g) :
+    fnTag oldPolicy (Fn3.cls .where_) ts a = .plain ∧ fnTag newPolicy (Fn3.cls .where_) ts a = .field g := by
+  simp [fnTag, Fn3.cls, oldPolicy, newPolicy, h]
+
+/-- evaluated form of `fnTag_keeps_grid` for one-argument kernels -/
+theorem app1_keeps_grid (gs : Grids) (lo ln : Nat → Except Err Val) (f : Prim.Fn1) (e : Expr)
+    (ae : Arr) (g : Nat)
+    (ho : eval oldPolicy gs lo e = .ok (ae, .field g)) (hn : eval newPolicy gs ln e = .ok (ae, .field g))
+    (a : Arr) (hk : Prim.apply1 f ae = .ok a) (hnd : a.shape ≠ []) :
+    eval oldPolicy gs lo (.app1 f e) = .ok (a, .field g) ∧
+    eval newPolicy gs ln (.app1 f e) = .ok (a, .field g) := by
+  have hc : Fn1.cls f ≠ .func := by cases f <;> simp [Fn1.cls]
+  have := fnTag_keeps_grid (Fn1.cls f) hc [] a g hnd
+  constructor
+  · simp [eval, ho, hk, Except.map, this.1]
+  · simp [eval, hn, hk, Except.map, this.2]
+
+/-- **In-place statements write through (subclass route)** — for *every* in-place statement of
+the model (`x op= e`, `x[i] = e`, `x[..., m] = e`, `x[i] op= e`, `x[..., m] op= e`,
+`np.op(a, b, out=x)`, `x.real = e`, `x.imag = e`, `x.sort()`, `x.fill(e)`): after success, `x` *and
+every alias of `x`* read the updated array `Prim.update u old args` (same kind of object, same
+grid), and every variable naming another object is unchanged. -/
+theorem inplace_writes_through_old (gs : Grids) (so so' : OState) (x : Nat) (u : Prim.Upd) (args : List Expr) (c : Nat)
+    (hx : so.vars.lookup x = some c) (hstep : stepO gs so (.update x u args) = .ok so') :
+    ∃ xv vs a, so.cells[c]? = some xv ∧ evalArgs oldPolicy gs so.look args = .ok vs ∧
+      Prim.update u xv.1 (vs.map Prod.fst) = .ok a ∧
       (∀ h, so.vars.lookup h = some c → so'.look h = .ok (a, xv.2)) ∧
       (∀ y c', so.vars.lookup y = some c' → c' ≠ c → so'.look y = so.look y) := by
   simp only [stepO, hx] at hstep
@@ -122,11 +155,11 @@ theorem inplace_writes_through_old (gs : Grids) (so so' : OState) (x : Nat) (op 
   | none => simp [hc] at hstep
   | some xv =>
     simp only [hc] at hstep
-    cases he : evalO gs so e with
+    cases he : evalArgs oldPolicy gs so.look args with
     | error err => simp [he] at hstep
-    | ok ev =>
+    | ok vs =>
       simp only [he] at hstep
-      cases hp : Prim.inplace op xv.1 ev.1 with
+      cases hp : Prim.update u xv.1 (vs.map Prod.fst) with
       | error err => simp [hp, Except.map] at hstep
       | ok a =>
         simp only [hp, Except.map, Except.ok.injEq] at hstep
@@ -134,25 +167,32 @@ theorem inplace_writes_through_old (gs : Grids) (so so' : OState) (x : Nat) (op 
         have hlt : c < so.cells.length := by
           rcases List.getElem?_eq_some_iff.mp hc with ⟨hlt, _⟩
           exact hlt
-        refine ⟨xv, ev, a, rfl, rfl, hp, ?_, ?_⟩
+        refine ⟨xv, vs, a, rfl, rfl, hp, ?_, ?_⟩
         · intro h hh
-          simp only [OState.look, lookup_bind]
-          by_cases hhx : h = x
-          · simp [hhx, List.getElem?_set_self hlt]
-          · simp [hhx, hh, List.getElem?_set_self hlt]
+          cases hr : Upd.rebinds u with
+          | false => simp [OState.look, hh, List.getElem?_set_self hlt]
+          | true =>
+            simp only [OState.look, if_true, lookup_bind]
+            by_cases hhx : h = x
+            · simp [hhx, List.getElem?_set_self hlt]
+            · simp [hhx, hh, List.getElem?_set_self hlt]
         · intro y c' hy hne
-          simp only [OState.look, lookup_bind]
-          by_cases hyx : y = x
-          · subst hyx; rw [hx] at hy; exact absurd (Option.some.inj hy).symm hne
-          · simp [hyx, hy, List.getElem?_set_ne (Ne.symm hne)]
+          cases hr : Upd.rebinds u with
+          | false => simp [OState.look, hy, List.getElem?_set_ne (Ne.symm hne)]
+          | true =>
+            simp only [OState.look, if_true, lookup_bind]
+            by_cases hyx : y = x
+            · subst hyx; rw [hx] at hy; exact absurd (Option.some.inj hy).symm hne
+            · simp [hyx, hy, List.getElem?_set_ne (Ne.symm hne)]
 
-/-- **In-place updates write through (wrapper route)**: after a successful `x op= e`, `x` is bound
-to a *new* wrapper, yet `x` and every variable whose wrapper shares `x`'s buffer read the updated
-array; variables on other buffers are unchanged. -/
-theorem inplace_writes_through_new (gs : Grids) (sn sn' : NState) (x : Nat) (op : BinOp) (e : Expr) (r : Nat × Tag)
-    (hx : sn.vars.lookup x = some r) (hstep : stepN gs sn (.iop x op e) = .ok sn') :
-    ∃ xa ev a, sn.bufs[r.1]? = some xa ∧ evalN gs sn e = .ok ev ∧ Prim.inplace op xa ev.1 = .ok a ∧
-      sn'.look x = .ok (a, iopTagN r.2 ev.2) ∧
+/-- **In-place statements write through (wrapper route)**: the same for the wrapper store — every
+variable whose wrapper shares `x`'s buffer reads the updated array (although `x op= e` binds `x` to
+a *new* wrapper), variables on other buffers are unchanged. -/
+theorem inplace_writes_through_new (gs : Grids) (sn sn' : NState) (x : Nat) (u : Prim.Upd) (args : List Expr) (r : Nat × Tag)
+    (hx : sn.vars.lookup x = some r) (hstep : stepN gs sn (.update x u args) = .ok sn') :
+    ∃ xa vs a, sn.bufs[r.1]? = some xa ∧ evalArgs newPolicy gs sn.look args = .ok vs ∧
+      Prim.update u xa (vs.map Prod.fst) = .ok a ∧
+      (∃ t, sn'.look x = .ok (a, t)) ∧
       (∀ h rh, h ≠ x → sn.vars.lookup h = some rh → rh.1 = r.1 → sn'.look h = .ok (a, rh.2)) ∧
       (∀ y ry, sn.vars.lookup y = some ry → ry.1 ≠ r.1 → sn'.look y = sn.look y) := by
   simp only [stepN, hx] at hstep
@@ -160,11 +200,11 @@ theorem inplace_writes_through_new (gs : Grids) (sn sn' : NState) (x : Nat) (op 
   | none => simp [hc] at hstep
   | some xa =>
     simp only [hc] at hstep
-    cases he : evalN gs sn e with
+    cases he : evalArgs newPolicy gs sn.look args with
     | error err => simp [he] at hstep
-    | ok ev =>
+    | ok vs =>
       simp only [he] at hstep
-      cases hp : Prim.inplace op xa ev.1 with
+      cases hp : Prim.update u xa (vs.map Prod.fst) with
       | error err => simp [hp, Except.map] at hstep
       | ok a =>
         simp only [hp, Except.map, Except.ok.injEq] at hstep
@@ -172,22 +212,29 @@ theorem inplace_writes_through_new (gs : Grids) (sn sn' : NState) (x : Nat) (op 
         have hlt : r.1 < sn.bufs.length := by
           rcases List.getElem?_eq_some_iff.mp hc with ⟨hlt, _⟩
           exact hlt
-        refine ⟨xa, ev, a, rfl, rfl, hp, ?_, ?_, ?_⟩
-        · simp [NState.look, lookup_bind, List.getElem?_set_self hlt]
+        refine ⟨xa, vs, a, rfl, rfl, hp, ?_, ?_, ?_⟩
+        · cases hr : Upd.rebinds u with
+          | false => exact ⟨r.2, by simp [NState.look, hx, List.getElem?_set_self hlt]⟩
+          | true => exact ⟨iopTagN r.2 ((vs.map Prod.snd).headD .plain), by simp [NState.look, lookup_bind, List.getElem?_set_self hlt]⟩
         · intro h rh hne hh hb
-          simp [NState.look, lookup_bind, hne, hh, hb, List.getElem?_set_self hlt]
+          cases hr : Upd.rebinds u with
+          | false => simp [NState.look, hh, hb, List.getElem?_set_self hlt]
+          | true => simp [NState.look, lookup_bind, hne, hh, hb, List.getElem?_set_self hlt]
         · intro y ry hy hne
-          simp only [NState.look, lookup_bind]
-          by_cases hyx : y = x
-          · subst hyx; rw [hx] at hy; exact absurd (congrArg Prod.fst (Option.some.inj hy)).symm hne
-          · simp [hyx, hy, List.getElem?_set_ne (Ne.symm hne)]
+          cases hr : Upd.rebinds u with
+          | false => simp [NState.look, hy, List.getElem?_set_ne (Ne.symm hne)]
+          | true =>
+            simp only [NState.look, if_true, lookup_bind]
+            by_cases hyx : y = x
+            · subst hyx; rw [hx] at hy; exact absurd (congrArg Prod.fst (Option.some.inj hy)).symm hne
+            · simp [hyx, hy, List.getElem?_set_ne (Ne.symm hne)]
 
-/-- **A copy is independent**: `y = x.copy()` gives `y` a fresh object, so a later in-place update
-of `x` does not reach `y` (subclass route; the wrapper route is the same statement with buffers). -/
-theorem copy_is_independent_old (gs : Grids) (so s1 s2 : OState) (x y : Nat) (op : BinOp) (e : Expr) (c : Nat)
+/-- **A copy is independent**: `y = x.copy()` gives `y` a fresh object, so no later in-place
+statement on `x` reaches `y` (subclass route; the wrapper route is the same statement with buffers). -/
+theorem copy_is_independent_old (gs : Grids) (so s1 s2 : OState) (x y : Nat) (u : Prim.Upd) (args : List Expr) (c : Nat)
     (hxy : y ≠ x) (hx : so.vars.lookup x = some c) (hc : c < so.cells.length)
     (h1 : stepO gs so (.assign y (.copy (.var x))) = .ok s1)
-    (h2 : stepO gs s1 (.iop x op e) = .ok s2) : s2.look y = s1.look y := by
+    (h2 : stepO gs s1 (.update x u args) = .ok s2) : s2.look y = s1.look y := by
   simp only [stepO, evalO] at h1
   cases hv : eval oldPolicy gs so.look (.copy (.var x)) with
   | error err => simp [hv, Except.map] at h1
@@ -196,7 +243,7 @@ theorem copy_is_independent_old (gs : Grids) (so s1 s2 : OState) (x y : Nat) (op
     subst h1
     have hx1 : (bind so.vars y so.cells.length).lookup x = some c := by
       simp [lookup_bind, Ne.symm hxy, hx]
-    obtain ⟨_, _, _, _, _, _, _, hother⟩ := inplace_writes_through_old gs _ s2 x op e c hx1 h2
+    obtain ⟨_, _, _, _, _, _, _, hother⟩ := inplace_writes_through_old gs _ s2 x u args c hx1 h2
     exact hother y so.cells.length (by simp [lookup_bind]) (by omega)
 
 end HcipyVerif.C19
